@@ -76,7 +76,13 @@ def insertDesc (k : Nat) (i : Nat) : List (Nat × Nat) → List (Nat × Nat)
 def flushBits (cfg : Cfg) (bb : BitBuf) : Except Err Bytes :=
   match bb.ty with
   | none => .ok []
-  | some t => writeScalar cfg t (.int bb.buffer)
+  | some t =>
+    -- `self._buffer.to_bytes(self._type.size, order)`: the raw bits of the unit, unsigned
+    match t.size with
+    | none => .error .value
+    | some n => match encodeInt cfg.endian n false bb.buffer with
+      | some b => .ok b
+      | none => .error .overflow
 
 def Fields.toList : Fields → List (String × Bool × Ty × Option Nat)
   | .nil => []
